@@ -425,6 +425,8 @@ class PathSummary:
         self.events = []
         self.result = None    # ('ret', value) | ('panic', kind, where) | ('cut', why) | ('unrecognised', msg)
         self.interp = None
+        self.final = {}
+        self.links = []
 
     def input(self, key, default=None):
         for k, v in self.inputs:
@@ -469,6 +471,7 @@ class Interp:
         self.frames = []
         self.user_cb = 0
         self.child_side = {}
+        self.sides = {}
         self.mat = {}
 
     # ---- choices
@@ -489,7 +492,61 @@ class Interp:
         return v
 
     def emit(self, kind, **kw):
+        if self.frames:
+            kw["fn"] = self.facts.short_of.get(self.frames[-1].fn_path, self.frames[-1].fn_path)
         self.summary.events.append(Event(kind, **kw))
+
+    def link_audit(self):
+        """for every link written on this path and still in place at the end: what the facts of the
+        path say about parent/child prefixes (strict containment, branch side)"""
+        from . import models
+        out = []
+        last = {}
+        for e in self.summary.events:
+            if e.kind == "link_write":
+                last[(e["table"], e["node"], e["side"])] = e
+        for (t, node, side), e in last.items():
+            if e["new"] is None:
+                continue
+            ar = self.arenas.get(t)
+            if ar is None:
+                continue
+            for k_ in (node, e["new"]):
+                if k_ not in ar.nodes:
+                    ar.node(SymV(k_))
+            def pname(key):
+                pv = ar.nodes[key].value.fields["prefix"].value
+                return pv.name if isinstance(pv, (UnkV, SymV)) else repr(pv)
+            pp, cp = self.canon(pname(node)), self.canon(pname(e["new"]))
+            rel = self.rels.base(pp, cp)
+            sd = models.side_of(self, pp, cp)
+            out.append({"table": t, "node": node, "side": side, "child": e["new"], "pp": pp, "cp": cp, "rel": rel,
+                        "side_known": sd, "side_ok": (sd is not None and sd == (side == "right")), "fn": e["fn"]})
+        return out
+
+    def snapshot(self):
+        """final arena state as known on this path ('?' = never inspected)"""
+        out = {}
+        for name, ar in self.arenas.items():
+            t = {}
+            for key, cell in ar.nodes.items():
+                nd = cell.value
+                st = {}
+                for fn_ in ("value", "left", "right"):
+                    v = nd.fields[fn_].value
+                    if isinstance(v, UnkV):
+                        st[fn_] = "?"
+                    else:
+                        pr = self.presence(v)
+                        st[fn_] = pr
+                        if pr == "S" and fn_ != "value":
+                            pv = v.fields["0"].value
+                            st[fn_ + "_to"] = repr(pv) if not isinstance(pv, UnkV) else pv.name
+                pv = nd.fields["prefix"].value
+                st["prefix"] = pv.name if isinstance(pv, (UnkV, SymV)) else repr(pv)
+                t[key] = st
+            out[name] = t
+        return out
 
     def fresh(self, stem):
         self.fresh_n += 1
@@ -555,20 +612,26 @@ class Interp:
                 if st == "N":
                     return StructV(OPTION, "None", {})
                 inner_ty = t["a"][0]
-                pc = Cell(UnkV(inner_ty, name + ".some"), name + ".some")
+                pname = name + ".some"
+                if cell is not None and cell.watch and cell.watch[0] == "node" and cell.watch[3] in ("left", "right"):
+                    # short, readable node keys: <parent key>.l / .r
+                    pname = "%s.%s" % (cell.watch[2], cell.watch[3][0])
+                pc = Cell(UnkV(inner_ty, pname), pname)
                 if cell is not None and cell.watch and cell.watch[0] == "node" and cell.watch[3] in ("left", "right"):
                     # tree axiom (C15, assumed here): a child link leads to a node whose prefix is
                     # strictly covered by the parent's, on the side of the link
                     _, arena, key, side = cell.watch
                     par_p = "%s[%s].prefix" % (arena.name, key)
-                    ch_p = "%s[%s].prefix" % (arena.name, name + ".some")
+                    ch_p = "%s[%s].prefix" % (arena.name, pname)
                     self.assume_rel(par_p, ch_p, (SUP, None, None))
                     self.child_side[(par_p, ch_p)] = side
+                    self.sides[(self.canon(par_p), ch_p)] = (side == "right")
+                    self.emit("link_known", table=arena.name, node=key, side=side, child=pname)
                 return StructV(OPTION, "Some", {"0": pc})
             if p == VEC:
                 return VecV(VecObj(name, [], base=name))
             if p == TABLE:
-                return TableV(self.arena(name))
+                return TableV(self.arena(name.lstrip("*")))
             if p == "std::marker::PhantomData":
                 return StructV(p, "PhantomData", {})
             a = self.facts.adts.get(p)
@@ -1343,6 +1406,12 @@ def explore(facts, entry, make_args=None, opts=None, max_paths=20000, program=No
             s.result = ("unrecognised", "stray break/continue")
         except RecursionError:
             s.result = ("cut", "recursion")
+        try:
+            s.final = it.snapshot()
+            s.links = it.link_audit()
+            s.interp = None
+        except Exception as ex:  # snapshot is best effort
+            s.final = {"error": str(ex)}
         out.append(s)
         n += 1
         if n >= max_paths:
